@@ -74,6 +74,7 @@ def run(ctx):
     check_rho_binding(ctx)
     collect(covered, w)
     check_coverage(ctx, covered)
+    check_measurement_matrix(ctx)
 
 
 ESTABLISHED_PARAMS = {
@@ -328,6 +329,117 @@ def same_charge(a, b):
 
 
 # ------------------------------------------------------------------------------------------------------------ coverage
+def T(e):
+    return U(e).replace(' ', '')
+
+
+def check_measurement_matrix(ctx):
+    """Adaptive Grid's noise is calibrated to L2 sensitivity 1 of the stacked query matrix Q = [Q1; Q2]: Q1 holds unit rows for the cells
+    measured one by one, Q2 the aggregates over the REMAINING cells.  That only holds if the aggregates are masked, in the coordinates of
+    the measured marginal itself, by the complement (I - Q1) - i.e. (I - Q1) is the factor applied FIRST to the data vector (the rightmost
+    factor of every product that makes up Q2).  A mask applied elsewhere in the product (before a permutation of the cells) selects
+    other cells: some cell is then counted by its unit row and by an aggregate row, and the column norm exceeds 1."""
+    repo = ctx.repo
+    fi = repo.nfunc(AG, 'adagrid')
+    agg = repo.nfunc(AG, 'get_aggregate')
+
+    def rightmost(e, defs):
+        """the factor of a (scaled) matrix product that is applied first"""
+        for _ in range(12):
+            if isinstance(e, ast.BinOp) and isinstance(e.op, ast.MatMult):
+                e = e.right
+            elif isinstance(e, ast.BinOp) and isinstance(e.op, ast.Mult):
+                # scalar * matrix: the matrix side is the one that is (defined as) a product / a known matrix name
+                l, r = e.left, e.right
+                pick = None
+                for side in (r, l):
+                    x = defs.get(side.id) if isinstance(side, ast.Name) else side
+                    if isinstance(x, ast.BinOp) and isinstance(x.op, ast.MatMult):
+                        pick = side
+                        break
+                if pick is None:
+                    return e
+                e = pick
+            elif isinstance(e, ast.Name) and e.id in defs and isinstance(defs[e.id], ast.BinOp):
+                e = defs[e.id]
+            elif isinstance(e, ast.Call) and isinstance(e.func, ast.Attribute) and e.func.attr in ('tocsr', 'tocsc', 'tocoo') and not e.args:
+                e = e.func.value
+            else:
+                return e
+        return e
+
+    # summary of get_aggregate: which parameter (if any) is the rightmost factor of every stacked term
+    gdefs = {}
+    for s_ in ast.walk(agg.node):
+        if isinstance(s_, ast.Assign) and len(s_.targets) == 1 and isinstance(s_.targets[0], ast.Name):
+            gdefs[s_.targets[0].id] = s_.value
+    rets = [r for r in walk_shallow(agg.node) if isinstance(r, ast.Return) and r.value is not None]
+    if len(rets) != 1:
+        raise AnalysisError('get_aggregate: expected one return')
+    rv = rets[0].value
+    masked_param = None
+    applied = None
+    if isinstance(rv, ast.BinOp) and isinstance(rv.op, ast.MatMult):
+        applied = [rightmost(rv, gdefs)]
+    elif isinstance(rv, ast.Call) and U(rv.func).split('.')[-1] == 'vstack' and len(rv.args) == 1 and isinstance(rv.args[0], ast.Name):
+        lst = rv.args[0].id
+        applied = [rightmost(c_.args[0], gdefs) for c_ in calls_in(agg.node)
+                   if isinstance(c_.func, ast.Attribute) and c_.func.attr == 'append' and U(c_.func.value) == lst and len(c_.args) == 1]
+        if not applied:
+            raise AnalysisError('get_aggregate: the stacked terms were not found')
+    else:
+        raise AnalysisError('get_aggregate: result `%s` is in no recognised form' % U(rv)[:60])
+    names = {U(a) for a in applied}
+    extra = [p_ for p_ in agg.params[3:]]
+    if len(names) == 1 and list(names)[0] in extra:
+        masked_param = list(names)[0]
+
+    n = 0
+    for st in ast.walk(fi.node):
+        if not (isinstance(st, ast.Assign) and len(st.targets) == 1 and isinstance(st.value, ast.Call) and U(st.value.func).split('.')[-1] == 'vstack'
+                and len(st.value.args) == 1 and isinstance(st.value.args[0], (ast.List, ast.Tuple)) and len(st.value.args[0].elts) == 2):
+            continue
+        q1, q2 = st.value.args[0].elts
+        par = getattr(st, '_parent', None)
+        block = next((b for b in (getattr(par, 'body', None), getattr(par, 'orelse', None)) if isinstance(b, list) and st in b), None)
+        if block is None or not isinstance(q2, ast.Name):
+            raise AnalysisError('adagrid: stacked query matrix `%s` is in no recognised form' % U(st)[:60])
+        defs = {}
+        ident = None
+        for p_ in block[:block.index(st)]:
+            if isinstance(p_, ast.Assign) and len(p_.targets) == 1 and isinstance(p_.targets[0], ast.Name):
+                # the first definition of the unit-row matrix is the full one (zero rows are removed afterwards)
+                if isinstance(p_.value, ast.Call) and U(p_.value.func) == 'get_identity':
+                    ident = p_.targets[0].id
+                if p_.targets[0].id not in defs or p_.targets[0].id != ident:
+                    defs[p_.targets[0].id] = p_.value
+        if ident is None or q2.id not in defs:
+            raise AnalysisError('adagrid: the unit-row matrix / the aggregate matrix of `%s` were not found' % U(st)[:60])
+        e2 = defs[q2.id]
+        eye = [k for k, v in defs.items() if isinstance(v, ast.Call) and U(v.func).split('.')[-1] in ('eye', 'identity')]
+        comp = ['%s-%s' % (i_, ident) for i_ in eye]
+        n += 1
+        if isinstance(e2, ast.Call) and U(e2.func) == 'get_aggregate':
+            a_ = list(e2.args) + [None] * 4
+            given = a_[3] if a_[3] is not None else next((k.value for k in e2.keywords if k.arg in agg.params[3:]), None)
+            if given is None:
+                ok, why = False, 'the aggregates are not masked at all'
+            elif masked_param is None:
+                ok, why = False, ('get_aggregate takes the mask but applies `%s` first to the data vector: the mask acts in the coordinates of the '
+                                  'child marginal, not of the measured one' % ', '.join(sorted(names)))
+            else:
+                ok = T(given) in comp
+                why = 'the mask handed to get_aggregate is `%s`' % U(given)
+        else:
+            rm = rightmost(e2, defs)
+            ok = T(rm).strip('()') in comp
+            why = 'the factor applied first is `%s`' % U(rm)
+        ctx.ob('unit-sensitivity', fi, st, ok,
+               'the aggregates stacked under the unit rows `%s` must be restricted to the other cells by (I - %s) applied first to the data vector; %s'
+               % (ident, ident, why), construct='aggregate part of ' + U(st)[:50])
+    ctx.floor('stacked query matrices in adagrid', n, 2)
+
+
 def check_coverage(ctx, covered):
     from .C06 import run_taint
     T, outs = run_taint(ctx.repo)
